@@ -1,6 +1,7 @@
 from cfg.common import FLOAT_ASSUMPTION, NOTE_COMMON
 
 PROP = {
+    'anchors': [('train/set_speed_train_sim.rs', 'solve_step'), ('train/set_speed_train_sim.rs', 'solve_required_pwr'), ('train/speed_limit_train_sim.rs', 'solve_step'), ('train/speed_limit_train_sim.rs', 'solve_required_pwr'), ('train/speed_limit_train_sim.rs', 'get_scaling_factor'), ('train/speed_limit_train_sim.rs', 'get_energy_fuel'), ('train/speed_limit_train_sim.rs', 'get_net_energy_res'), ('train/speed_limit_train_sim.rs', 'get_kilometers'), ('train/speed_limit_train_sim.rs', 'get_megagram_kilometers'), ('consist/consist_model.rs', 'solve_energy_consumption')],
     'blocks': ['train'],
     'proof_modules': ['C11'],
     'namespaces': ['Altrios.Proofs.C11'],
